@@ -79,8 +79,14 @@ fn gen_cfg(rng: &mut Rng, expose: bool) -> Cfg {
     let long_cols = rng.chance(1, 30);
     if long_cols {
         let col = |c: char| -> String { std::iter::repeat(c).take(2900 + 17).collect() };
-        rows.push(("長".to_string(), format!("名詞,{},{},{}", col('p'), col('q'), col('r'))));
+        // (the middle column is made of three-byte characters after one or two ASCII letters: a 4096-byte chunk of the
+        // expanded template then ends inside a character)
+        let mid: String = format!("{}{}", if rng.chance(1, 2) { "m" } else { "mm" }, std::iter::repeat('あ').take(960).collect::<String>());
+        rows.push(("長".to_string(), format!("名詞,{},{},{}", col('p'), mid, col('r'))));
     }
+    // 1 configuration in 6: a seed row whose feature string is empty
+    let empty_feature = rng.chance(1, 6);
+    if empty_feature { rows.push(("ね".to_string(), String::new())); }
     if rng.chance(1, 25) {
         // a surface whose CSV-escaped form is longer than 4096 bytes (3900 letters and 150 double quotes)
         let long: String = (0..4050).map(|i| if i % 27 == 0 { '"' } else { 'a' }).collect();
@@ -170,6 +176,7 @@ fn gen_cfg(rng: &mut Rng, expose: bool) -> Cfg {
     { let (_, f) = rng.pick(&rows); user.push_str(&format!("uz,0,0,0,{}\n", f)); }
     // ... and one with the SURFACE and the features of a seed word (must get that word's cost as well)
     { let (sf, f) = rng.pick(&rows); if sf.chars().count() < 100 { user.push_str(&format!("{},0,0,0,{}\n", quote(sf), f)); } }
+    if empty_feature { user.push_str("ue,0,0,0,\nuf,1,1,7,\n"); }
     // a 0,0,0 user word with the features of a corpus token that no lexicon word has: its label carries the weights
     // that token earned in training and can be the heaviest of the whole model
     for (j, vf) in virtual_feats.iter().enumerate() { user.push_str(&format!("uv{},0,0,0,{}\n", j, vf)); }
@@ -355,6 +362,19 @@ pub fn run(prop: &str, seed: u64, n: usize, outdir: &str, _corpus: Option<&str>)
         let mut ch = crate::util::Chunked { data: vec![], cap: 1 + rng.below(700) as usize };
         let wrote_ch = model.write_model(&mut ch).is_ok();
         flags.push(("c15_write_model_short_writes".into(), (wrote_ch == wrote && ch.data == mbytes) as u8));
+        // a sink that runs out of room shortly before the end: write_model must report the failure
+        {
+            struct Limited { room: usize }
+            impl std::io::Write for Limited {
+                fn write(&mut self, buf: &[u8]) -> std::io::Result<usize> {
+                    if self.room == 0 && !buf.is_empty() { return Err(std::io::Error::new(std::io::ErrorKind::Other, "no room left")); }
+                    let k = buf.len().min(self.room); self.room -= k; Ok(k)
+                }
+                fn flush(&mut self) -> std::io::Result<()> { Ok(()) }
+            }
+            let all_err = [1usize, 7, 100, 5000].iter().all(|k| model.write_model(Limited { room: mbytes.len().saturating_sub(*k) }).is_err());
+            flags.push(("c15_write_model_reports_a_sink_that_fails_near_the_end".into(), all_err as u8));
+        }
         let mut m2 = match Model::read_model(&mbytes[..]) { Ok(m) => m, Err(_) => { flags.push(("c15_read_model".into(), 0)); model.read_user_lexicon(c.user.as_bytes()).ok(); Model::read_model(&mbytes[..]).unwrap_or_else(|_| panic!()) } };
         flags.push(("c15_write_read_model".into(), wrote as u8));
         let g2 = generate(&mut m2).unwrap();
